@@ -137,8 +137,11 @@ def run_case(case, sb):
     if res["raised"]:
         problems.append({"raised": res["raised"]})
     else:
-        rv = res["variables"]
-        mv = common.norm_model_vars(model.variables)
+        def drop_none(d):
+            # reading '@d.key' before it was written leaves {'key': None} behind: not a value the csvpath assigned
+            return {k: ({kk: vv for kk, vv in v.items() if vv is not None} if isinstance(v, dict) else v) for k, v in d.items()}
+        rv = drop_none(res["variables"])
+        mv = drop_none(common.norm_model_vars(model.variables))
         for k, v in mv.items():
             if any(k == g or k.startswith(g + "_") for g in ignore):
                 continue
